@@ -9,13 +9,11 @@ DRIVER = "drv_codec"
 HARNESS_BIN = "codec"
 HARNESS_FEATURES = "extras"
 PARTIAL = [
-    "decode_encode_asis_partial / back_to_back_asis_partial: the round trip of the code AS IT IS is proved for every "
-    "type in which no BitVec with a storage word wider than u8 occurs; the excluded case is finding F7 "
-    "(bitvec_asis_counterexample, asis_full_statement_false are kernel-checked refutations).  decode_encode, "
-    "back_to_back, bitvec_roundtrip_repaired are the full statements for the decoder repaired by "
-    "fixes/F7-bitvec-decode.diff",
     "interned_roundtrip covers structures whose encoding is a flat stream of plain parts and handles (vectors, "
     "tuples, options of handles ...); a handle whose inner value itself contains handles is not modelled",
+    "decode_encode_asis_partial / back_to_back_asis_partial / bitvec_asis_counterexample* / asis_full_statement_false "
+    "are historical: they describe the decoder before /repo commit e089897 (finding F7, fixed); decode_encode and "
+    "back_to_back (no side condition) are the statements about the code as it is now",
 ]
 ASSUMPTIONS = [
     "64-bit platform: usize/isize travel as u64/i64 and `try_from` cannot fail",
@@ -23,8 +21,9 @@ ASSUMPTIONS = [
     "have distinct 128-bit hashes — explicit hypothesis `hinj`; the correspondence also runs a 2-bit hasher where "
     "it fails and checks that model and code then go wrong in the same way",
     "interned handles decoded from one structure stay alive while it is decoded (no weak reference dies in between)",
-    "zigzag is modelled arithmetically on Int; the two's-complement bit trick of postcard.rs is tied to it by the "
-    "exhaustive 16-bit correspondence and the zigzag boundaries at 32/64/128 bits",
+    "Rust's `<<`, arithmetic `>>`, `^`, `&` and unary minus on iN/uN are Lean's BitVec operations (zigzag_bit_trick "
+    "proves the bit trick equal to the arithmetic zigzag of the model for every width; the correspondence re-checks "
+    "it exhaustively at 16 bits and at the zigzag boundaries of 32/64/128 bits)",
     "sequence lengths, string lengths and enum variant indices are < 2^64 (part of well-typedness)",
 ]
 TRUSTED_EXTRA = [
@@ -38,6 +37,7 @@ TRUSTED_EXTRA = [
 ]
 
 SHARDS = 16
+CORPUS = os.path.join(vlib.VERIF, "corpus", "C12-F7.json")
 
 
 def _bin(ctx):
@@ -53,10 +53,21 @@ def _bin(ctx):
 def _one(ctx, binp, seed, shard, n, tier, tag):
     out = os.path.join(ctx.work, f"{tag}{shard}")
     cmd = [binp, "--seed", str(seed), "--tier", tier, "--out", out, "--n", str(n), "--shard", str(shard), str(SHARDS)]
+    if shard == 0 and os.path.exists(CORPUS):
+        cmd += ["--replay", CORPUS]     # regression inputs of the fixed finding F7: run first, must pass
     rc, log = vlib.sh(cmd, timeout=3000)
+    aborted = None
+    if rc != 0:
+        # The real decoder killed the process (it pre-allocates whatever length it reads: an absurd length read from a
+        # desynchronised stream is an allocation failure = abort).  On a VALID encoding that is itself a violation of
+        # the property; re-run the shard with the length guard on so that the concrete failing inputs are reported.
+        aborted = f"harness shard {shard} rc={rc}: {log[-600:]}"
+        try: os.remove(os.path.join(out, "report.json"))
+        except OSError: pass
+        rc, log = vlib.sh(cmd + ["--guarded"], timeout=3000)
     if rc != 0 or not os.path.exists(os.path.join(out, "report.json")):
         return {"err": f"harness shard {shard} rc={rc}: {log[-1500:]}"}
-    dargs = ("--fix",) if os.environ.get("C12_DRIVER_FIX") == "1" else ()
+    dargs = ("--asis-f7",) if os.environ.get("C12_DRIVER_ASIS_F7") == "1" else ()
     rc2, err = vlib.run_driver(DRIVER, os.path.join(out, "ops.txt"), os.path.join(out, "model.txt"), dargs)
     if rc2 != 0:
         return {"err": f"driver shard {shard} rc={rc2}: {err[-800:]}"}
@@ -65,6 +76,8 @@ def _one(ctx, binp, seed, shard, n, tier, tag):
         d["replay"] = {"seed": seed, "shard": shard, "n": n, "tier": tier}
         if d.get("op"): d["op"] = d["op"][:400]
     rep = json.load(open(os.path.join(out, "report.json")))
+    if aborted:
+        diffs.insert(0, {"harness-aborted-then-rerun-guarded": aborted, "replay": {"seed": seed, "shard": shard, "n": n, "tier": tier}})
     for f in rep["oracle_failures"]:
         f["replay"] = {"seed": seed, "shard": shard, "n": n, "tier": tier}
     if not diffs:
@@ -125,7 +138,7 @@ def run(ctx):
             want = json.load(open(ctx.replay)).get("sig")
             if want: res.oracle_failures = [f for f in res.oracle_failures if f["sig"] == want]
             return res
-    return _collect(ctx, 20000 if ctx.quick() else 300000)
+    return _collect(ctx, 20000 if ctx.quick() else 500000)
 
 
 def search(ctx, res):
